@@ -665,6 +665,23 @@ func (e *Engine) loadFromKey(st *State, v ssa.Value, key string, known bool) {
 	}
 }
 
+// addrExprKey: a syntactic key for field addresses over an SSA base pointer ("" if not of that form).
+func (e *Engine) addrExprKey(v ssa.Value) string {
+	path := ""
+	for {
+		fa, ok := v.(*ssa.FieldAddr)
+		if !ok {
+			break
+		}
+		path = fmt.Sprintf(".f%d%s", fa.Field, path)
+		v = fa.X
+	}
+	if path == "" {
+		return ""
+	}
+	return e.vid(v) + path
+}
+
 func (e *Engine) unop(fr *frame, st *State, x *ssa.UnOp) {
 	switch x.Op {
 	case token.MUL: // load
@@ -688,6 +705,19 @@ func (e *Engine) unop(fr *frame, st *State, x *ssa.UnOp) {
 			return
 		}
 		e.loadFromKey(st, x, "", false)
+		if e.LoadGVN && isInt(x.Type()) {
+			// two loads through the same (unresolved) address with no store or call in between read the same value
+			if k := e.addrExprKey(x.X); k != "" {
+				if a, ok := st.loadMemo[k]; ok && a != e.atomOf(x) {
+					st.Bind(e.atomOf(x), Var(a))
+				} else {
+					if st.loadMemo == nil {
+						st.loadMemo = map[string]Atom{}
+					}
+					st.loadMemo[k] = e.atomOf(x)
+				}
+			}
+		}
 		// element of an all-non-nil slice
 		if st.elemsNN["E"+e.vid(x.X)] && isPointerLike(x.Type()) {
 			st.nonnil[e.vid(x)] = true
@@ -1088,6 +1118,7 @@ func (e *Engine) unsafeUse(fr *frame, x *ssa.Convert) {
 }
 
 func (e *Engine) store(fr *frame, st *State, x *ssa.Store) {
+	st.loadMemo = nil
 	if _, isAddr := x.Addr.(*ssa.FieldAddr); !isAddr {
 		if _, isIdx := x.Addr.(*ssa.IndexAddr); !isIdx {
 			if _, isAl := x.Addr.(*ssa.Alloc); !isAl {
